@@ -9,6 +9,7 @@
 #include <stdint.h>
 #include "qlibc.h"
 #include "vfc.h"
+#include <limits.h>
 /* the print helpers (debug()) run on real contents now and then: C11 covers what they read */
 static FILE *DEVNULL; static unsigned long DBGCTR;
 #define DEBUG_NOW() (((++DBGCTR) % 61) == 0 && (DEVNULL || (DEVNULL = fopen("/dev/null", "w"))))
@@ -92,6 +93,19 @@ static void v_add(int how, int index) {
     if (r != ok) { judge("C10", "add", "add returned %d, model %d (position %d of %d)", r, ok, ins, MN); return; }
     if (r) { m_ins(ins, EBUF); if (V->max != oldmax) vf_count("automatic_growths", 1); }
     else { if (e != ERANGE) judge("C10", "add-errno", "refused add errno=%d", e); vf_count("refused_calls_verified_effect_free", 1); }
+}
+/* the new element is one of the vector's own elements, passed through the pointer a non-copying get handed out (duplicate element i at position j):
+ * the buffer may move for the growth and the tail is shifted before the element is copied */
+static void v_add_own(void) {
+    if (!MN) return;
+    int from = (int)rng_below(&R, (uint32_t)MN), ins = (int)rng_below(&R, (uint32_t)MN + 1);
+    void *p = V->getat(V, from, false);
+    if (!p) { judge("C10", "get", "getat(%d) returned NULL on %d elements", from, MN); return; }
+    unsigned char want[80]; memcpy(want, mel(from), ES);
+    vf_log("addat(%d) with the stored element %d (own pointer) n=%d max=%zu", ins, from, MN, V->max);
+    bool r = ins == MN && rng_chance(&R, 1, 2) ? V->addlast(V, p) : V->addat(V, ins, p);
+    if (!r) { judge("C10", "add", "adding a copy of the stored element %d at %d failed errno=%d", from, ins, errno); return; }
+    m_ins(ins, want); vf_count("adds_through_a_stored_element_pointer", 1);
 }
 /* act: 0 get 1 set 2 pop 3 remove */
 static void v_access(int how, int index, int act) {
@@ -223,9 +237,11 @@ static void history(long caseno) {
     for (int op = 0; op < nops && !abandon; op++) {
         uint32_t c = rng_below(&R, 100);
         int idx = (int)rng_below(&R, (uint32_t)(2 * MN + 5)) - MN - 2;
+        if (rng_chance(&R, 1, 25)) { static const int X[] = {INT_MIN, INT_MIN + 1, INT_MAX, INT_MAX - 1, -1000000007, 1 << 30, -(1 << 30), 65536, -65536}; idx = X[rng_below(&R, 9)]; vf_count("extreme_indexes", 1); }   /* refused like any other out-of-range index */
         if (c < 10) v_add(0, 0);
         else if (c < 24) v_add(1, 0);
-        else if (c < 38) v_add(2, MN > 2 && rng_chance(&R, 1, 2) ? 1 + (int)rng_below(&R, (uint32_t)MN - 1) : idx);
+        else if (c < 35) v_add(2, MN > 2 && rng_chance(&R, 1, 2) ? 1 + (int)rng_below(&R, (uint32_t)MN - 1) : idx);
+        else if (c < 38) v_add_own();
         else if (c < 48) v_access((int)rng_below(&R, 3), idx, 0);
         else if (c < 56) v_access((int)rng_below(&R, 3), idx, 1);
         else if (c < 64) v_access((int)rng_below(&R, 3), idx, 2);
